@@ -18,13 +18,7 @@ CORPUS = os.path.join(common.ROOT, "corpus", "C15")
 
 
 def known_class(p, T):
-    """Known_import_alias: the symbol is made visible under another name by `.import x as y`"""
-    if isinstance(T, navgen.Def) and any(o.role == "imp_alias" and o.d is T for o in p.occs):
-        return "Known_import_alias"
-    # a definition of the same name exists only in an untaken branch: the analysed run binds occurrences to it
-    dead = {d.name for d in p.defs if not d.assembled and d.kind != "param"}
-    if isinstance(T, navgen.Def) and T.name in dead:
-        return "Known_greedy_untaken_definition"
+    """no known finding is left for C15 (Known_import_alias: 92ace6d, Known_greedy_untaken_definition: 41281c3)"""
     return None
 
 
@@ -104,7 +98,9 @@ def rename_trial(chk, p, sess, probe, o, T, new_name, base_build, stats, kind, t
         tie.check_rename(p, o, mid, new_name, edits)
     # --- only occurrences that mean the symbol are edited, and all of them (every file)
     want, maybe = c16.expected_references(p, T)
-    want = {k for k in want if not any(x.key() == k and x.role == "superseg" for x in p.occs)}
+    # ... under the name that is being renamed: `super` does not name the symbol, and an import alias is a name of its own
+    want = {k for k in want if any(x.key() == k and x.text == o.text for x in p.occs)}
+    maybe = {k for k in maybe if any(x.key() == k and x.text == o.text for x in p.occs)}
     got = set()
     stray = []
     for e in edits:
